@@ -449,6 +449,15 @@ def main():
         add("D.many-%d-then-garbage" % n, cat + b"\x00\x01garbage")
         add("D.many-%d-der-appended" % n, cat + X_PUB_PREFIX + xp)
 
+    # a file holding two PRIVATE KEY blocks (the parsers of one key read the first block), a private block followed by
+    # a public one and the reverse
+    p1, p2 = pem(PRIV, X_PRIV_PREFIX + xs, 64, b"\n"), pem(PRIV, X_PRIV_PREFIX + xkeys[4][0], 64, b"\n")
+    e1 = pem(PRIV, ED_PRIV_PREFIX + es, 64, b"\n")
+    u1 = pem(PUB, X_PUB_PREFIX + xp, 64, b"\n")
+    for nm, blob in (("x-x", p1 + p2), ("x-x-reversed", p2 + p1), ("x-ed", p1 + e1), ("ed-x", e1 + p2), ("x-x-x", p1 + p2 + p1),
+                     ("priv-pub", p1 + u1), ("pub-priv", u1 + p2), ("x-garbage-block", p1 + pem(PRIV, b"\x30\x00", 64, b"\n"))):
+        add("D.two-blocks:" + nm, blob)
+
     # ---- E. random inputs
     for i in range(300):
         n = rnd.randrange(0, 200)
